@@ -510,6 +510,22 @@ impl FileContext {
     }
 }
 
+/// Opens `path` for reading if it names a regular file (symbolic links are followed).
+///
+/// Everything else is refused instead of opened: opening e.g. a named pipe blocks the calling thread
+/// (here: the thread that serves the connection) until a writer shows up.
+fn open_regular_file<P: AsRef<std::path::Path>>(path: P) -> std::io::Result<File> {
+    let path = path.as_ref();
+    if std::fs::metadata(path)?.is_file() {
+        File::open(path)
+    } else {
+        Err(std::io::Error::new(
+            std::io::ErrorKind::InvalidInput,
+            format!("path '{}' is not a regular file", path.display()),
+        ))
+    }
+}
+
 type InputFileStream = (u64, String, DltFileInfos);
 type TupleSumFileLenInputFileStreams = (u64, Vec<(HashSet<DltChar4>, Vec<InputFileStream>)>);
 
@@ -519,7 +535,7 @@ fn file_names_to_file_streams(
     log: &slog::Logger,
 ) -> TupleSumFileLenInputFileStreams {
     let file_msgs = file_names.iter().map(|f_name| {
-        let fi = File::open(f_name);
+        let fi = open_regular_file(f_name);
         match fi {
             Ok(mut f) => {
                 let file_ext = std::path::Path::new(f_name).extension().and_then(|s|s.to_str()).unwrap_or_default();
@@ -1349,10 +1365,10 @@ fn fs_cmd_archive(
         if archive_is_supported_filename(&archive_path) {
             let mut source = if is_part_of_multi_volume_archive(&archive_path) {
                 let paths = search_dir_for_multi_volume_archive(&archive_path);
-                let sources = paths.into_iter().flat_map(std::fs::File::open).collect();
+                let sources = paths.into_iter().flat_map(open_regular_file).collect();
                 SeekableChain::new(sources)
             } else {
-                SeekableChain::new(vec![std::fs::File::open(&archive_path)?])
+                SeekableChain::new(vec![open_regular_file(&archive_path)?])
             };
             return match cmd {
                 "readDirectory" => {
